@@ -13,6 +13,7 @@ pub enum AnyModel<T: Sc> {
     Built(SeparableModel<T>),
     Hand(HandModel<T>),
     Const(ConstModel<T>),
+    Dyn(Box<dyn SeparableNonlinearModel<ScalarType = T, Error = HErr> + Send + Sync>),
 }
 impl<T: Sc> SeparableNonlinearModel for AnyModel<T> {
     type ScalarType = T;
@@ -22,6 +23,7 @@ impl<T: Sc> SeparableNonlinearModel for AnyModel<T> {
             AnyModel::Built(m) => m.parameter_count(),
             AnyModel::Hand(m) => m.parameter_count(),
             AnyModel::Const(m) => m.parameter_count(),
+            AnyModel::Dyn(m) => m.parameter_count(),
         }
     }
     fn base_function_count(&self) -> usize {
@@ -29,6 +31,7 @@ impl<T: Sc> SeparableNonlinearModel for AnyModel<T> {
             AnyModel::Built(m) => m.base_function_count(),
             AnyModel::Hand(m) => m.base_function_count(),
             AnyModel::Const(m) => m.base_function_count(),
+            AnyModel::Dyn(m) => m.base_function_count(),
         }
     }
     fn output_len(&self) -> usize {
@@ -36,6 +39,7 @@ impl<T: Sc> SeparableNonlinearModel for AnyModel<T> {
             AnyModel::Built(m) => m.output_len(),
             AnyModel::Hand(m) => m.output_len(),
             AnyModel::Const(m) => m.output_len(),
+            AnyModel::Dyn(m) => m.output_len(),
         }
     }
     fn set_params(&mut self, p: OVector<T, Dyn>) -> Result<(), HErr> {
@@ -43,6 +47,7 @@ impl<T: Sc> SeparableNonlinearModel for AnyModel<T> {
             AnyModel::Built(m) => m.set_params(p).map_err(|e| HErr(e.to_string())),
             AnyModel::Hand(m) => m.set_params(p),
             AnyModel::Const(m) => m.set_params(p),
+            AnyModel::Dyn(m) => m.set_params(p),
         }
     }
     fn params(&self) -> OVector<T, Dyn> {
@@ -50,6 +55,7 @@ impl<T: Sc> SeparableNonlinearModel for AnyModel<T> {
             AnyModel::Built(m) => m.params(),
             AnyModel::Hand(m) => m.params(),
             AnyModel::Const(m) => m.params(),
+            AnyModel::Dyn(m) => m.params(),
         }
     }
     fn eval(&self) -> Result<OMatrix<T, Dyn, Dyn>, HErr> {
@@ -57,6 +63,7 @@ impl<T: Sc> SeparableNonlinearModel for AnyModel<T> {
             AnyModel::Built(m) => m.eval().map_err(|e| HErr(e.to_string())),
             AnyModel::Hand(m) => m.eval(),
             AnyModel::Const(m) => m.eval(),
+            AnyModel::Dyn(m) => m.eval(),
         }
     }
     fn eval_partial_deriv(&self, k: usize) -> Result<OMatrix<T, Dyn, Dyn>, HErr> {
@@ -64,6 +71,7 @@ impl<T: Sc> SeparableNonlinearModel for AnyModel<T> {
             AnyModel::Built(m) => m.eval_partial_deriv(k).map_err(|e| HErr(e.to_string())),
             AnyModel::Hand(m) => m.eval_partial_deriv(k),
             AnyModel::Const(m) => m.eval_partial_deriv(k),
+            AnyModel::Dyn(m) => m.eval_partial_deriv(k),
         }
     }
 }
